@@ -139,8 +139,10 @@ def run_case(case):
             return res
         if not run.exit0:
             res["counters"]["nonzero-exit"] = 1
-            if not case["noclobber"] and case["prior"] in ("fresh",):
-                res["counters"]["unexpected-nonzero-fresh"] = 1
+            if not case["noclobber"] and not case["refuse"]:
+                # nothing was refused or made to fail, no block device, no --no-clobber: "are copied ... replacing an existing entry"
+                res["viol"].append({"sig": "%s:not-copied:%s" % (case["driver"], case["prior"]),
+                                    "what": "exit %d although nothing stands in the way of copying the nodes (previous destination: %s): %s; %s" % (run.status, case["prior"], run.stderr.strip()[-200:], tag)})
             res["evals"].append({"key": None})
             return res
         src = [case["spec"][0]["p"]] if case["sole"] else ["src"]
